@@ -2094,6 +2094,11 @@ class DiskObjectStore(PackBasedObjectStore):
     def get_object_mtime(self, sha: ObjectID) -> float:
         """Get the modification time of an object.
 
+        An object can be stored more than once (loose and packed, or in
+        several packs). The most recent of the copies' modification times is
+        returned: an object that was written again recently is recent, no
+        matter how old its other copies are.
+
         Args:
           sha: SHA1 of the object
 
@@ -2103,11 +2108,13 @@ class DiskObjectStore(PackBasedObjectStore):
         Raises:
           KeyError: if the object is not found
         """
+        mtimes = []
+
         # First check if it's a loose object
         if self.contains_loose(sha):
             path = self._get_shafile_path(sha)
             try:
-                return os.path.getmtime(path)
+                mtimes.append(os.path.getmtime(path))
             except FileNotFoundError:
                 pass
 
@@ -2118,13 +2125,15 @@ class DiskObjectStore(PackBasedObjectStore):
                     # Use the pack file's mtime for packed objects
                     pack_path = pack._data_path
                     try:
-                        return os.path.getmtime(pack_path)
+                        mtimes.append(os.path.getmtime(pack_path))
                     except (FileNotFoundError, AttributeError):
                         pass
             except PackFileDisappeared:
                 pass
 
-        raise KeyError(sha)
+        if not mtimes:
+            raise KeyError(sha)
+        return max(mtimes)
 
     def _remove_pack(self, pack: Pack) -> None:
         # _pack_cache is keyed by the full pack basename (e.g. "pack-<hash>"
